@@ -486,6 +486,8 @@ fn history_part(rep: &mut Report) {
     let valid_plain = build_entry(&cfg, f, vec![(s("M"), m(vec![Obs::U(7)], vec![])), (s("S"), ValD::Str(s("text")))]);
     let valid_split = build_entry(&cfg, f, vec![(s("M"), m(vec![Obs::U(7)], vec![(s("k"), s("v"))])), (s("G"), m(vec![Obs::U(9)], vec![]))]);
     let valid_edims = build_entry(&cfg, Frame { ts: TsD::Small, edims: EDimsD::One, dim_strings_last: false, always_split: false }, vec![(s("M"), m(vec![Obs::U(3)], vec![(s("k"), s("v"))]))]);
+    // entry-level dimension sets on the main record (no per-metric dimensions)
+    let valid_edims_main = build_entry(&cfg, Frame { ts: TsD::Small, edims: EDimsD::Two, dim_strings_last: false, always_split: false }, vec![(s("M"), m(vec![Obs::U(4)], vec![]))]);
     let mut dup = valid_plain.clone();
     dup.ops.push(OpD::Value(s("M"), ValD::Str(s("again"))));
     let mut no_split = build_entry(&cfg, f, vec![(s("R"), m(vec![Obs::U(666)], vec![(s("k"), s("v"))]))]);
@@ -498,6 +500,7 @@ fn history_part(rep: &mut Report) {
         ("valid-plain", valid_plain, true),
         ("valid-split", valid_split, true),
         ("valid-split-under-entry-dimensions", valid_edims, true),
+        ("valid-entry-dimensions-on-the-main-record", valid_edims_main, true),
         ("rejected-duplicate-name", dup, false),
         ("rejected-dimensions-without-split", no_split, false),
         ("rejected-duplicate-in-split-record", split_dup, false),
